@@ -62,7 +62,7 @@ func c09ResultOwned(c *Ctx, p *core.Prog) {
 			return "", false
 		}
 		fa, ok := u.X.(*ssa.FieldAddr)
-		if !ok || fa.X != recv {
+		if !ok || !recvLike(recv, fa.X) {
 			return "", false
 		}
 		return core.FieldName(fa.X.Type(), fa.Field), true
@@ -115,6 +115,86 @@ func c09ResultOwned(c *Ctx, p *core.Prog) {
 		}
 	}
 	r.Floor("result-owned", n, 3, "slice/map results of Parser and Tokenizer methods")
+	// scratch-not-linked: storage that belongs to the reusable object (the value of one of its slice fields, resliced or
+	// appended to) must not be linked into another object, e.g. an AST node: the next use of the scratch overwrites
+	// what that node holds.
+	r.Rule("scratch-not-linked", "in the methods of *Parser / *Tokenizer a slice that shares storage with a receiver field (the field's value, a reslice of it, or an append chain starting from it) is not stored into a field of any other object")
+	nm := 0
+	for _, rel := range []string{"pkg/sql/parser", "pkg/sql/tokenizer"} {
+		for _, fn := range p.SrcFuncs(rel) {
+			if fn.Parent() != nil || fn.Signature.Recv() == nil || !isPooled(fn.Signature.Recv().Type()) || len(fn.Params) == 0 {
+				continue
+			}
+			recv := ssa.Value(fn.Params[0])
+			shared := map[ssa.Value]string{}
+			for _, b := range fn.Blocks {
+				for _, in := range b.Instrs {
+					if v, ok := in.(ssa.Value); ok {
+						if _, isSl := v.Type().Underlying().(*types.Slice); isSl {
+							if f, ok := recvField(v, recv); ok {
+								shared[v] = f
+							}
+						}
+					}
+				}
+			}
+			if len(shared) == 0 {
+				continue
+			}
+			nm++
+			for changed := true; changed; {
+				changed = false
+				for _, b := range fn.Blocks {
+					for _, in := range b.Instrs {
+						v, ok := in.(ssa.Value)
+						if !ok || shared[v] != "" {
+							continue
+						}
+						src := ""
+						switch x := in.(type) {
+						case *ssa.Slice:
+							src = shared[x.X]
+						case *ssa.Call:
+							if core.IsBuiltinCall(&x.Call, "append") && len(x.Call.Args) > 0 {
+								src = shared[x.Call.Args[0]]
+							}
+						case *ssa.Phi:
+							for _, e := range x.Edges {
+								if shared[e] != "" {
+									src = shared[e]
+								}
+							}
+						}
+						if src != "" {
+							shared[v] = src
+							changed = true
+						}
+					}
+				}
+			}
+			seq := 0
+			for _, b := range fn.Blocks {
+				for _, in := range b.Instrs {
+					st, ok := in.(*ssa.Store)
+					if !ok || shared[st.Val] == "" {
+						continue
+					}
+					fa, ok := st.Addr.(*ssa.FieldAddr)
+					if !ok || recvLike(recv, fa.X) {
+						continue
+					}
+					if _, isSl := st.Val.Type().Underlying().(*types.Slice); !isSl {
+						continue
+					}
+					seq++
+					r.Violate("scratch-not-linked", core.FnName(fn)+sprintf("|%s#%d", shared[st.Val], seq), p.Pos(st.Pos()), "a slice that shares storage with the receiver's field "+shared[st.Val]+" is stored into "+core.FieldName(fa.X.Type(), fa.Field)+" of another object: the next use of "+shared[st.Val]+" on this (reusable, pooled) object overwrites what that object holds")
+				}
+			}
+		}
+	}
+	if r.Count("scratch-not-linked") == 0 {
+		r.OK("scratch-not-linked", "scan", "-", sprintf("%d methods use receiver slice fields; none links that storage into another object", nm))
+	}
 }
 
 // captured-node: a function literal that outlives its creator (it is returned, or stored in a struct / interface)
@@ -393,4 +473,29 @@ func calleeName(ci ssa.CallInstruction) string {
 		return ci.Common().Method.Name()
 	}
 	return "a function value"
+}
+
+// recvLike: v is the receiver parameter, or a load of the cell it was spilled to (a closure captures it).
+func recvLike(recv ssa.Value, v ssa.Value) bool {
+	if v == recv {
+		return true
+	}
+	u, ok := v.(*ssa.UnOp)
+	if !ok || u.Op != token.MUL {
+		return false
+	}
+	al, ok := u.X.(*ssa.Alloc)
+	if !ok {
+		return false
+	}
+	n := 0
+	for _, ref := range core.Referrers(al) {
+		if st, ok := ref.(*ssa.Store); ok && st.Addr == ssa.Value(al) {
+			n++
+			if st.Val != recv {
+				return false
+			}
+		}
+	}
+	return n == 1
 }
